@@ -313,6 +313,12 @@ theorem lemma_rw_inv (ops : List WOp) (rw : RW)
           simp [RW.step, hw, hu, hs, Wire.step, RW.StatusCode]
         · obtain ⟨hst, hne⟩ := h2 hw
           simp [RW.step, hw, Wire.step, hst, h3, RW.StatusCode, hne] at *
+      | readFrom n =>
+        cases hw : rw.written
+        · obtain ⟨hu, hs, hz⟩ := h1 hw
+          simp [RW.step, hw, hu, hs, hz, Wire.step, RW.StatusCode]
+        · obtain ⟨hst, hne⟩ := h2 hw
+          simp [RW.step, hw, Wire.step, hst, h3, RW.StatusCode, hne] at *
     · intro c hc; exact hvalid c (by simp [hc])
 
 /-- **status and size truthful**: for every sequence of WriteHeader/Write calls with valid status codes (net/http
